@@ -210,7 +210,7 @@ def run(rep: Report, repo: Repo):
         rep.ob('C01.rebind', cname, ok)
         if not ok:
             rep.violate('C01.rebind', lmod, fn, d.rebinding, f'{cname}: op columns 1..5 are not mapped 1:1 through c_locs before the chain', node=d.rebinding)
-        it = d.loop.iter
+        it = getattr(d, 'ops_iter', d.loop.iter)
         if not (isinstance(it.slice, ast.Tuple) and norm(it.slice) in ('(slice(None, None, None), slice(None, 6, None))',) or norm(it).endswith('[:, :6]')):
             rep.violate('C01.columns', lmod, fn, it, f'{cname}: the loop does not iterate the first six op columns: {norm(it)}', node=it)
         seen = {}
